@@ -12,6 +12,20 @@ fn catch<T>(f: impl FnOnce() -> T) -> Result<T, String> {
 }
 
 /// Judges one integer lerp result. `a`,`b` exactly representable in f32 (as f64 here), `x` in [0,1].
+/// "Monotone in x up to float rounding" for integer results: a decrease by one unit is rounding noise
+/// iff both real interpolations lie within the f32 arithmetic slack of a rounding tie (x.5).
+fn int_decrease_is_noise(a: f64, b: f64, px: f32, x: f32, pv: f64, got: f64, slack: f64) -> bool {
+    if (pv - got).abs() > 1.0 + slack {
+        return false;
+    }
+    let near_tie = |xx: f32| {
+        let r = a * (1.0 - xx as f64) + b * xx as f64;
+        let fr = (r - r.floor() - 0.5).abs();
+        fr <= slack + 1e-9
+    };
+    near_tie(px) && near_tie(x)
+}
+
 fn judge_int(a: f64, b: f64, x: f32, got: f64, wide: bool) -> Result<(), String> {
     let xr = x as f64;
     let real = a * (1.0 - xr) + b * xr; // exact enough in f64: a,b <= 2^64, x 24 bits
@@ -62,7 +76,8 @@ macro_rules! exhaustive8 {
                         }
                         if let Some((px, pv)) = prev {
                             let dec = if b >= a { got < pv } else { got > pv };
-                            if px < x && dec {
+                            let m = (a as f64).abs().max((b as f64).abs());
+                            if px < x && dec && !int_decrease_is_noise(a as f64, b as f64, px, x, pv as f64, got as f64, 3.0 * 2f64.powi(-24) * (m + 1.0)) {
                                 return Err((json!({"index": idx, "type": stringify!($t), "a": a, "b": b, "x": x}), format!("not monotone in x: lerp({a},{b},{px:?}) = {pv} but lerp({a},{b},{x:?}) = {got}")));
                             }
                         }
@@ -177,7 +192,7 @@ fn wide_judge(c: &WideCase, obs: &mut Obs) -> Result<(), String> {
             let m = c.a.abs().max(c.b.abs());
             let slack = if wide { 2.0 * ulp32(m as f32) as f64 } else { 3.0 * 2f64.powi(-24) * (m + 1.0) };
             let dec = if c.b >= c.a { got < pv - slack } else { got > pv + slack };
-            if px < x && dec {
+            if px < x && dec && !int_decrease_is_noise(c.a, c.b, px, x, pv, got, slack) {
                 return Err(format!("{}: not monotone in x: lerp({},{},{px:?}) = {pv} but at {x:?} = {got}", TYPES[ty as usize], c.a, c.b));
             }
         }
@@ -259,13 +274,15 @@ fn float_judge(c: &FloatCase, obs: &mut Obs) -> Result<(), String> {
         let g64 = c.a64.lerp(&c.b64, x);
         let real64 = c.a64 * (1.0 - x as f64) + c.b64 * x as f64;
         let m64 = c.a64.abs().max(c.b64.abs());
-        if (g64 - real64).abs() > m64 * 2f64.powi(-22) + 1e-300 {
+        // f32 precision: relative 2^-22 of the larger endpoint, but never finer than the smallest
+        // f32 denormal step (the computation goes through f32)
+        if (g64 - real64).abs() > m64 * 2f64.powi(-22) + 3.0e-45 {
             return Err(format!("f64 lerp({},{},{x:?}) = {g64}, real interpolation {real64} (beyond f32 precision)", c.a64, c.b64));
         }
-        if x == 0.0 && (g64 - c.a64).abs() > m64 * 2f64.powi(-23) {
+        if x == 0.0 && (g64 - c.a64).abs() > m64 * 2f64.powi(-23) + 3.0e-45 {
             return Err(format!("f64 lerp({},{},0) = {g64}", c.a64, c.b64));
         }
-        if x == 1.0 && (g64 - c.b64).abs() > m64 * 2f64.powi(-23) {
+        if x == 1.0 && (g64 - c.b64).abs() > m64 * 2f64.powi(-23) + 3.0e-45 {
             return Err(format!("f64 lerp({},{},1) = {g64}", c.a64, c.b64));
         }
         // glam vectors: component-wise == the scalar implementation, bit for bit
@@ -403,8 +420,9 @@ pub fn c14(run: &mut Run) {
                         if let Err(d) = judge_int(a, b, x, got, false) {
                             return Err((json!({"index": idx, "a": a, "b": b, "x": x}), d));
                         }
-                        if let Some((_, pv)) = prev {
-                            if (b >= a && got < pv) || (b < a && got > pv) {
+                        if let Some((px, pv)) = prev {
+                            let m = a.abs().max(b.abs());
+                            if ((b >= a && got < pv) || (b < a && got > pv)) && !int_decrease_is_noise(a, b, px, x, pv, got, 3.0 * 2f64.powi(-24) * (m + 1.0)) {
                                 return Err((json!({"index": idx, "a": a, "b": b, "x": x}), format!("16-bit lerp not monotone at x={x}: {pv} then {got}")));
                             }
                         }
